@@ -48,6 +48,12 @@ class Setup(object):
             self.model.fields[1]["length"] = "1"
         self.cids = {}
         self.cids["valid"] = self._write_cid("cid_valid.csv", self.model.cid_rows())
+        # the same CID as spreadsheets export it ("CSV UTF-8"): with a byte order mark in front
+        with open(self.cids["valid"], "rb") as f:
+            valid_bytes = f.read()
+        with open(os.path.join(self.dir, "cid_valid_bom.csv"), "wb") as f:
+            f.write(b"\xef\xbb\xbf" + valid_bytes)
+        self.cids["valid-with-byte-order-mark"] = os.path.join(self.dir, "cid_valid_bom.csv")
         broken = self.model.cid_rows()
         broken[-3][5] = "NoSuchType"
         self.cids["rejected"] = self._write_cid("cid_rejected.csv", broken)
